@@ -24,6 +24,15 @@ CHECKS = {
             "for default saves the first save may permute and prune (C04): the before/after comparison uses the order-insensitive battery restricted to blocks reachable from the root, without bounds",
         ],
     },
+    "C03": {
+        "harness": "c03",
+        "level": "exploration",
+        "floor": {"quick": 500, "thorough": 1000},
+        "timeout": {"quick": 1500, "thorough": 7200},
+        "assumptions": [
+            "unknown types are simulated by relabelling known types to unregistered names with an independent header writer; payload and declared sizes are untouched",
+        ],
+    },
     "C05": {
         "harness": "c05",
         "level": "exploration",
@@ -34,6 +43,75 @@ CHECKS = {
             "string references are only required to be enumerated in versions that store string-table indices (>= 20.1.0.3)",
         ],
     },
+}
+
+def build_c08(pid, spec):
+    """C08 links two builds of the library: the working tree and the vendored reference."""
+    import hashlib
+    import shutil
+    import subprocess
+    repo = vbuild.REPO
+    ref = os.path.join(vbuild.VERIF, "reference")
+    libcur, rh = vbuild.build_lib("san", repo)
+    libref, refh = vbuild.build_lib("san", ref, extra_defs=["-Dnifly=nifly_ref"], tag="ref")
+    hdir = os.path.join(vbuild.VERIF, "harness")
+    hh = vbuild._hash_tree([os.path.join(hdir, "common"), os.path.join(hdir, "c08.cpp"), os.path.join(hdir, "c08_adapter.cpp")])
+    hh = hashlib.sha256((hh + refh).encode()).hexdigest()[:12]
+    out = os.path.join(vbuild.CACHE, rh, "san", "h-c08-" + hh)
+    binp = os.path.join(out, "c08")
+    with vbuild.Lock(os.path.join(vbuild.CACHE, "lock-h-" + rh + "-san-c08")):
+        if os.path.exists(binp):
+            return binp
+        parent = os.path.join(vbuild.CACHE, rh, "san")
+        for e in os.listdir(parent):
+            if e.startswith("h-c08-") and e != os.path.basename(out):
+                shutil.rmtree(os.path.join(parent, e), ignore_errors=True)
+        os.makedirs(out, exist_ok=True)
+        flags = vbuild.FLAVOURS["san"][1] + ["-O1"]
+        common = ["-I", os.path.join(hdir, "common")]
+
+        def inc(r):
+            return ["-I", os.path.join(r, "include"), "-isystem", os.path.join(r, "external")]
+
+        jobs = [
+            ([vbuild.CXX] + flags + common + ["-c", os.path.join(hdir, "c08.cpp"), "-o", os.path.join(out, "c08.o")], "c08.cpp"),
+            ([vbuild.CXX] + flags + common + inc(repo) + ["-DADAPTER=cur", "-c", os.path.join(hdir, "c08_adapter.cpp"),
+              "-o", os.path.join(out, "adapter_cur.o")], "adapter cur"),
+            ([vbuild.CXX] + flags + common + inc(ref) + ["-DADAPTER=ref", "-Dnifly=nifly_ref", "-Dvf=vf_ref", "-c",
+              os.path.join(hdir, "c08_adapter.cpp"), "-o", os.path.join(out, "adapter_ref.o")], "adapter ref"),
+        ]
+        from concurrent.futures import ThreadPoolExecutor
+        with ThreadPoolExecutor(3) as ex:
+            list(ex.map(lambda j: vbuild._run(j[0], j[1]), jobs))
+        link = [vbuild.CXX] + vbuild.FLAVOURS["san"][2] + [os.path.join(out, "c08.o"), os.path.join(out, "adapter_cur.o"),
+                os.path.join(out, "adapter_ref.o"), vbuild.build_rc_driver(), os.path.join(libcur, "libnifly.a"),
+                os.path.join(libref, "libnifly.a"), "-lrapidcheck", "-lpthread", "-o", binp + ".tmp"]
+        vbuild._run(link, "link c08")
+        os.rename(binp + ".tmp", binp)
+    return binp
+
+
+CHECKS["C07"] = {
+    "harness": "c07",
+    "level": "exploration",
+    "floor": {"quick": 500, "thorough": 1000},
+    "timeout": {"quick": 1500, "thorough": 7200},
+    "assumptions": [
+        "true block lengths are measured by re-serialising each block of the reloaded output into its own buffer (independent of NiOStream's byte counter)",
+        "string-index field offsets come from hook H4",
+    ],
+}
+
+CHECKS["C08"] = {
+    "harness": "c08",
+    "build": build_c08,
+    "level": "translation_validation",
+    "floor": {"quick": 500, "thorough": 1000},
+    "timeout": {"quick": 1500, "thorough": 7200},
+    "assumptions": [
+        "the reference build is the vendored snapshot /verif/reference (provenance in reference/PROVENANCE): pinned commit + hook commits + fix: commits; a repaired wire defect is part of the reference",
+        "both builds run in one process behind C adapters (reference compiled with -Dnifly=nifly_ref)",
+    ],
 }
 
 for _pid, _floor in (("C18", 1000), ("C19", 1000), ("C20", 1000)):
